@@ -196,9 +196,9 @@ DOM_PREFIXES = [
 
 def obligations(tier):
     quick = tier == 'quick'
-    N = 4 if quick else 7
+    N = 4 if quick else 6
     obs = [Ob('reader[prefix+tail]', ob_reader, dict(prefixes=PREFIXES, N=N), must_reach=['DiffXReader.iter_sections'],
-              path_timeout=8, max_wall=1500,
+              path_timeout=8, max_wall=3000,
               desc='real reader on every catalogue prefix followed by 0..%d fully symbolic bytes and EOF: terminates, '
                    'completes or raises DiffXParseError with linenum inside the input and a message that agrees with '
                    'linenum/column' % N, bounds={'tail_len': [0, N], 'prefixes': len(PREFIXES)})]
